@@ -96,18 +96,8 @@ def run(ctx):
                 "non-trivial = tree has >= 2 nodes")
     ctx.tlc("MC_HedRewrite", "MC_HedRewrite.cfg", workers=16, label="model: verdict invariant under sibling exchange, all trees <= 4 nodes",
             timeout=1800)
-    gen = "MC_HedRules_gen.cfg"
-    with open(os.path.join(tlc.SPECS, gen)) as f:
-        txt = f.read()
-    if not quick:
-        txt = txt.replace("MaxN = 3", "MaxN = 4")
-    made = os.path.join(tlc.SPECS, "MC_HedRules_gen_c04.cfg")
-    with open(made, "w") as f:
-        f.write(txt)
-    try:
-        r = ctx.tlc("MC_HedRules", "MC_HedRules_gen_c04.cfg", workers=1, label="tree enumeration", timeout=3000, heap="8g")
-    finally:
-        os.remove(made)
+    gen = "MC_HedRules_gen.cfg" if quick else ctx.cfg("MC_HedRules_gen.cfg", ("MaxN = 3", "MaxN = 4"))
+    r = ctx.tlc("MC_HedRules", gen, workers=1, label="tree enumeration", timeout=3000, heap="8g")
     cases = [j for j in r.json_lines if len(j["kind"]) >= 2]
     rs = ctx.tlc("MC_HedRules", "MC_HedRules_sim.cfg", workers=1, mode="simulate", simulate="num=%d" % (1500 if quick else 20000),
                  depth=7, seed=ctx.seed + 23, label="deep trees (simulate)", timeout=3000)
